@@ -148,10 +148,12 @@ def check(ctx):
                          undos=[f"self.release_on_behalf_of({b})", f"self._wait_queue.pop({b}, None)"], blocks=["await $E.wait()"],
                          instance="CapacityLimiter.acquire_on_behalf_of", native=True)
     n_ops += 1
-    for q, pat in (("CapacityLimiter.acquire", "return await self.acquire_on_behalf_of(current_task())"), ("CapacityLimiter.__aenter__", "await self.acquire()")):
+    for q, pat in (("CapacityLimiter.acquire", "await self.acquire_on_behalf_of(current_task())"), ("CapacityLimiter.__aenter__", "await self.acquire()")):
         g = ctx.fn(q, A)
         s = ctx.sites(g, pat)
-        ctx.ob("R08-a", g, f"{q} delegates to the checkpointing operation", len(s) == 1, detail="" if s else f"{q} is not `{pat}`", by=(pat,))
+        ctx.ob("R08-a", g, f"{q} delegates to the checkpointing operation", len(s) == 1, detail="" if s else f"{q} does not `{pat}`", by=(pat,))
+        if s:
+            dominates_all_exits(ctx, "R08-a", g, pat, f"{q} reaches the checkpointing operation on every path")
     # Condition
     cw = ctx.fn("Condition.wait", SYNC)
     regs = ctx.sites(cw, "self._waiters.append($E)")
